@@ -22,20 +22,26 @@ WellFormed(s) == s.n \in 1..8 /\ s.digits /\ s.unit \in Units /\ ~s.signed
 Unspecified(s) == s.signed /\ s.n \in 2..9 /\ s.unit \in Units   \* "+5S", "-5S": grpc-go's own decoder accepts them
 
 \* ---- cancellation as a small state machine ------------------------------------------------
-CONSTANTS Shapes, Points
+CONSTANTS Shapes, Points,
+          Vias,            \* subset of {"local", "proxied"}: where the handler runs
+          DetachBackend    \* mechanism switch (Neg): the forwarder opens the backend stream on a context of its own
 \* Points: "running" | "blockedRecv" | "blockedSend" | "returned"
-VARIABLES hpos, ctxDone, cancelled, released
-cvars == <<hpos, ctxDone, cancelled, released>>
-CInit == hpos \in Points /\ ctxDone = FALSE /\ cancelled = FALSE /\ released = FALSE
-ClientCancel == ~cancelled /\ cancelled' = TRUE /\ UNCHANGED <<hpos, ctxDone, released>>
+\* via = "proxied": the handler runs on a backend behind RegisterConn; the cancellation first ends the context of
+\* larking's forwarder (fdone), and the backend stream - opened on that context - is reset, which ends the handler's
+VARIABLES hpos, ctxDone, cancelled, released, via, fdone
+cvars == <<hpos, ctxDone, cancelled, released, via, fdone>>
+CInit == hpos \in Points /\ ctxDone = FALSE /\ cancelled = FALSE /\ released = FALSE /\ via \in Vias /\ fdone = FALSE
+ClientCancel == ~cancelled /\ cancelled' = TRUE /\ UNCHANGED <<hpos, ctxDone, released, via, fdone>>
 \* the transport notices the cancel / disconnect and ends the request context
-CtxDone == cancelled /\ ~ctxDone /\ ctxDone' = TRUE /\ UNCHANGED <<hpos, cancelled, released>>
+CtxDone == via = "local" /\ cancelled /\ ~ctxDone /\ ctxDone' = TRUE /\ UNCHANGED <<hpos, cancelled, released, via, fdone>>
+FrontDone == via = "proxied" /\ cancelled /\ ~fdone /\ fdone' = TRUE /\ UNCHANGED <<hpos, ctxDone, cancelled, released, via>>
+BackendDone == via = "proxied" /\ fdone /\ ~DetachBackend /\ ~ctxDone /\ ctxDone' = TRUE /\ UNCHANGED <<hpos, cancelled, released, via, fdone>>
 \* a handler blocked in a stream call is released with an error once the context has ended
 Release == ctxDone /\ hpos \in {"blockedRecv", "blockedFirstRecv", "blockedSend"} /\ ~released
-           /\ released' = TRUE /\ hpos' = "running" /\ UNCHANGED <<ctxDone, cancelled>>
-CNext == ClientCancel \/ CtxDone \/ Release
+           /\ released' = TRUE /\ hpos' = "running" /\ UNCHANGED <<ctxDone, cancelled, via, fdone>>
+CNext == ClientCancel \/ CtxDone \/ FrontDone \/ BackendDone \/ Release
 CSpec == CInit /\ [][CNext]_cvars /\ WF_cvars(CNext)
 \* liveness on the model: after a cancel the context ends and nobody stays blocked
 CancelReleases == cancelled ~> (ctxDone /\ hpos \notin {"blockedRecv", "blockedFirstRecv", "blockedSend"})
-NoSpuriousDone == ctxDone => cancelled
+NoSpuriousDone == (ctxDone => cancelled) /\ (fdone => cancelled)
 =============================================================================
